@@ -21,6 +21,8 @@ HISTORY = {
     "C07-const-forward-reference-accepted": "missed at first: every corpus program with constants needed externally supplied values (compilation stopped at MissingConstant); a literal-only const chain was added to the C07 corpus and a ConstScope section (every identifier of a constant expression replaced by every constant name) to C17",
     "C11-import-capacity-from-header": "missed at first: header numbers were only perturbed one at a time; all pairs of header positions x pairs of boundary numbers added (deviation bound 2 on the header) - which also exposed one more genuine importer overflow on the unchanged tree",
     "C12-arrayconst-unspecified-not-cast": "missed at first by C12 (caught by C05 / C01 once const-sized repeat templates were added to family I, which also exposed that compile() dropped const sizes): use template RepeatLet added to C12",
+    "C15-gate-cache-reset-at-2-18": "missed at first: every enumerated program is small, the change only acts beyond 2^18 pushed gates; a few programs with 10^5 - 10^6 gates were added to the C15 scan and, as family L, to C01 / C04 / C10 / C11",
+    "C17-single-variant-enum-refutable-fields": "missed at first: the refutable patterns of RefutableLet / For / Join were literals in tuples only; a menu of refutable shapes (literal / range / bool inside a single-variant tuple enum, a struct, a multi-variant enum, nested) added",
     "C17-match-arms-share-scope": "missed at first: UseAfterScope only covered loop variables and block locals; replaced by a reference model of lexical scoping (every use x every name bound elsewhere but not in scope)",
 }
 rows = []
